@@ -449,6 +449,15 @@ def _rl(e: ast.AST) -> Optional[Tuple[str, str]]:
         e = see_through(ctx, fn, e) or e
     if not isinstance(e, ast.Call):
         return None
+    # the lookup written out (or a dissolved helper): next((k for k, v in T.items() if v == x), default)
+    if isinstance(e.func, ast.Name) and e.func.id == "next" and e.args and isinstance(e.args[0], ast.GeneratorExp) and len(e.args[0].generators) == 1:
+        ge, g_ = e.args[0], e.args[0].generators[0]
+        if isinstance(g_.iter, ast.Call) and isinstance(g_.iter.func, ast.Attribute) and g_.iter.func.attr == "items" and isinstance(g_.target, ast.Tuple) and len(g_.target.elts) == 2 and len(g_.ifs) == 1 and isinstance(g_.ifs[0], ast.Compare) and len(g_.ifs[0].ops) == 1 and isinstance(g_.ifs[0].ops[0], ast.Eq):
+            kv_, vv_ = [A.unparse(x) for x in g_.target.elts]
+            l_, r_ = g_.ifs[0].left, g_.ifs[0].comparators[0]
+            if A.unparse(ge.elt) == kv_ and vv_ in (A.unparse(l_), A.unparse(r_)):
+                other = r_ if A.unparse(l_) == vv_ else l_
+                return A.unparse(g_.iter.func.value), A.unparse(other)
     r = reverse_lookup_call(ctx.prog, fn, e)
     if r is None or r[1] is None or r[2] is None:
         return None
@@ -1086,9 +1095,15 @@ def _under_not_in(fn_node: ast.AST, node: ast.AST, newp: str) -> bool:
     """node lies in the branch where `<target> not in <new targets>` holds"""
     child = node
     for anc in A.ancestors(node):
-        if isinstance(anc, ast.If) and isinstance(anc.test, ast.Compare) and len(anc.test.ops) == 1 and A.unparse(anc.test.comparators[0]) == newp:
-            neg = isinstance(anc.test.ops[0], ast.NotIn)
-            pos = isinstance(anc.test.ops[0], ast.In)
+        test = anc.test if isinstance(anc, ast.If) else None
+        if isinstance(test, ast.Name):
+            # a boolean local that names the membership test (`gone = target not in new_targets`)
+            defs_ = [s_ for s_ in ast.walk(fn_node) if isinstance(s_, ast.Assign) and len(s_.targets) == 1 and isinstance(s_.targets[0], ast.Name) and s_.targets[0].id == test.id]
+            if len(defs_) == 1:
+                test = defs_[0].value
+        if isinstance(anc, ast.If) and isinstance(test, ast.Compare) and len(test.ops) == 1 and A.unparse(test.comparators[0]) == newp:
+            neg = isinstance(test.ops[0], ast.NotIn)
+            pos = isinstance(test.ops[0], ast.In)
             if neg or pos:
                 in_body = child in anc.body
                 return (neg and in_body) or (pos and not in_body)
